@@ -143,6 +143,9 @@ func c16r1(c *core.Ctx) {
 					at = n
 				}
 				mark := func(k string) {
+					if isGroupKey(m, k) {
+						return // a field that only groups fields keyed under the owner: those are what is reset
+					}
 					ri.handled[k] = true
 					ri.nodes[k] = append(ri.nodes[k], at)
 				}
@@ -222,7 +225,7 @@ func c16r1(c *core.Ctx) {
 					k, cal, _ := m.Callee(x)
 					rp := m.AccessPath(g, sel.X)
 					// method call on a field (or element of a field) of the receiver: the field is handled by that method
-					if len(rp.Fields()) > 0 && (ownerOf(rp.Fields()[0]) == recvType || (recvType == "archetype" && ownerOf(rp.Fields()[0]) == "archetypeData")) {
+					if fs := withoutGroupKeys(m, rp.Fields()); len(fs) > 0 && (ownerOf(fs[0]) == recvType || (recvType == "archetype" && ownerOf(fs[0]) == "archetypeData")) {
 						for _, fk := range rp.Fields() {
 							if ownerOf(fk) == recvType || ownerOf(fk) == "archetypeData" {
 								mark(fk)
@@ -296,6 +299,9 @@ func c16r1(c *core.Ctx) {
 			}
 			for i := 0; i < st.NumFields(); i++ {
 				key := m.FieldKey(st.Field(i))
+				if isGroupKey(m, key) {
+					continue
+				}
 				subject := key + " in " + ri.f.Name
 				switch {
 				case c16Persistent[key] != "" && containsStr(ri.wiped, key):
